@@ -256,10 +256,10 @@ def oracle_pl(case, line, scripted=True, rseed=None):
             elif lz_val[v[0]] != v[1]:
                 out.append(("violation", "lazy static %d read as %d, its initialiser drew %s" % (v[0], v[1], lz_val[v[0]])))
         # ---- DashMap / DashSet ----
-        elif 90 <= tag <= 107:
+        elif 90 <= tag <= 107 or 112 <= tag <= 114:
             o = v[0]
             d = maps.setdefault(o, {})
-            write = tag in (90, 92, 95, 96, 97, 98, 101, 104, 105)
+            write = tag in (90, 92, 95, 96, 97, 98, 101, 104, 105, 112, 113)
             ot = others(o, t)
             if tag != 103 and ((write and ot) or (not write and any(k2 == 5 for _, k2 in ot))):
                 out.append(("violation", "DashMap operation (tag %d) of task %d ran while %s hold guards of map %d" % (tag, t, ot, o)))
@@ -318,6 +318,24 @@ def oracle_pl(case, line, scripted=True, rseed=None):
                     bad = "try_get succeeded while %s hold the map" % ot
                 elif (v[2], v[3]) != ((0, d[v[1]]) if v[1] in d else (1, 0)):
                     bad = "try_get returned %s" % v[2:]
+            elif tag in (112, 113):
+                # remove_if / remove_if_mut(k, pred = value parity p): [o, k, p, 1 removed | 0 rejected | 2 absent, value seen]
+                k_, p_, res, seen = v[1], v[2], v[3], v[4]
+                if k_ not in d:
+                    if res != 2:
+                        bad = "remove_if on an absent key answered %d" % res
+                else:
+                    x = d[k_] if tag == 112 else (d[k_] + 1) % M64
+                    want = 1 if x % 2 == p_ % 2 else 0
+                    if (res, seen) != (want, x):
+                        bad = "remove_if%s answered %s, expected %s" % ("_mut" if tag == 113 else "", (res, seen), (want, x))
+                    if want:
+                        del d[k_]
+                    else:
+                        d[k_] = x
+            elif tag == 114:
+                if (v[2], v[3]) != (int(v[1] in d), d.get(v[1], 0)):
+                    bad = "view returned %s" % v[2:]
             elif tag == 104:
                 if v[2] != int(v[1] not in d):
                     bad = "DashSet::insert returned %d" % v[2]
